@@ -133,5 +133,49 @@ def raw_sites(facts, keys):
                 continue
             # replaced edge removed right after
             par = pm.get(id(c))
-            out.append((key, c, None, 'both endpoints pre-exist and no not-connected test dominates the insertion'))
+            if _definitely_old(f, a, pm) and _definitely_old(f, b, pm):
+                out.append((key, c, None, 'both endpoints pre-exist and no not-connected test dominates the insertion'))
+            else:
+                out.append((key, c, None, 'UNRECOGNISED: the endpoints were not recognised as fresh vertices, and not as vertices that certainly existed before either'))
     return out
+
+
+OLD_COLLS = ('neighbors', 'neighbor_vec', 'vertices', 'vertex_vec', 'inputs', 'outputs', 'incident_edges', 'incident_edge_vec', 'edges', 'edge_vec')
+
+
+def _definitely_old(f, e, pm):
+    """the vertex expression certainly denotes a vertex that existed before this function added anything: a parameter, an element of a parameter
+    slice, or a variable bound by iterating one of the graph's own vertex / neighbour / edge collections (through plain lets)"""
+    lets = hir.let_env(f)
+    e = hir.resolve(e, lets)
+    e = hir.strip(e) if e is not None else None
+    if e is None:
+        return False
+    params = set(p_['id'] for p_ in f.get('params', []) if p_.get('k') == 'Bind')
+    l = hir.local(e)
+    if l:
+        if l[1] in params:
+            return True
+        # a loop variable of `for .. in <graph>.neighbors(..)` etc.
+        for n in hir.nodes(f['hir']):
+            if n.get('k') == 'For' and any(i == l[1] for _n, i in hir.bindings(n['pat'])):
+                it = hir.strip(n['iter'])
+                while it is not None and it.get('k') == 'MethodCall' and it['name'] in ('iter', 'into_iter', 'copied', 'cloned', 'clone', 'collect', 'enumerate', 'filter'):
+                    it = hir.strip(it['recv'])
+                if it is not None and it.get('k') == 'MethodCall' and it['name'] in OLD_COLLS:
+                    return True
+                il = hir.local(it) if it is not None else None
+                if il and il[1] in params:
+                    return True
+        return False
+    if e.get('k') == 'Index':
+        b = hir.local(hir.strip(e['e']))
+        return bool(b and b[1] in params)
+    return False
+
+
+def verdict(just, detail):
+    """three-valued: justified -> True; both endpoints certainly old and nothing justifies the insertion -> False; otherwise undecided"""
+    if just is not None:
+        return True
+    return None if (detail or '').startswith('UNRECOGNISED') else False
